@@ -1,3 +1,6 @@
 fn main() {
+    if let Some(code) = c12::child_entry() {
+        std::process::exit(code);
+    }
     vengine::main(c12::property())
 }
